@@ -519,8 +519,10 @@ def r5(ctx):
         paths = mir.callee_paths(t)
         if not any(re.search(STORE_LAYER, p or "") for p in list(paths) + [t["f"].get("full") or ""]):
             continue
-        n += 1
         root = b.rec.get("root") or b.path
+        if re.search(r" as std::ops::Drop>::drop$", root):
+            continue        # nobody to report to in a destructor (R3 decides that Drop flushes at all)
+        n += 1
         ct = tables.call_table(t, types)
         tol = tolerated.get((root, ct[0] if ct else None))
         if tol:
